@@ -28,7 +28,8 @@ A0 == [ nOde |-> 0, nOdeJ |-> 0, nJac |-> 0, nEv |-> 0, nCb |-> 0,
         \* Level B (Stepper.tla) conformance for the explicit solvers on low-level runs:
         iv |-> <<>>,            \* ranks of the stepper evaluations since the last callback
         prevMod |-> FALSE,      \* the last callback returned ModifiedSolution (one re-evaluation follows it)
-        mAtt |-> 0, mAcc |-> 0, mRej |-> 0, mTot |-> 0, lbBad |-> 0 ]
+        mAtt |-> 0, mAcc |-> 0, mRej |-> 0, mTot |-> 0, lbBad |-> 0,
+        gapped |-> FALSE, everGapped |-> FALSE ]   \* events were elided since the last callback / anywhere in this run
 
 TraceInit == l = 1 /\ C = NoCall /\ A = A0
 
@@ -90,8 +91,8 @@ TraceCb ==
            \* the derivative a step starts from is f at the accepted state it starts from: the one-step methods must
            \* have evaluated f(x_k, y_k) - before handing step k to SolOut or afterwards - by the time step k+1 is
            \* accepted (BDF works on differences instead)
-           derivok == A.needDeriv = ""
-           need == IF first \/ C.method = "BDF" \/ e.d \in A.recent THEN "" ELSE e.d
+           derivok == A.needDeriv = "" \/ A.gapped
+           need == IF first \/ C.method = "BDF" \/ A.gapped \/ e.d \in A.recent THEN "" ELSE e.d
            \* ---- Level B: the evaluations since the previous callback are (rejected attempts)* accepted attempt,
            \* each attempt a fixed block of stage evaluations at x + c_i h (Stepper.tla Trial), as coded per method
            explicit == C.method \in {"RK4", "RK23", "DOPRI5", "DOP853"} /\ C.api = "low"
@@ -107,7 +108,7 @@ TraceCb ==
                     /\ \A j \in 1..natt - 1 : ends[j] > ends[j + 1]
                     /\ ends[natt] = e.x.r
                     /\ \A j \in 1..Len(evs) : evs[j] >= e.xold.r /\ evs[j] <= ends[1]
-           lbok  == first \/ ~explicit \/ Len(A.iv) >= 4000 \/ shape
+           lbok  == first \/ ~explicit \/ Len(A.iv) >= 4000 \/ A.gapped \/ shape
            nrejNow == IF first \/ ~explicit \/ ~shape THEN 0 ELSE natt - 1
            \* rejection counting rule of the code: RK23 counts every rejection; DOPRI5/DOP853 only once two steps were accepted
            rejCounted == IF C.method = "RK23" THEN nrejNow ELSE IF A.mAcc > 1 THEN nrejNow ELSE 0
@@ -117,7 +118,7 @@ TraceCb ==
                          !.ipBad = IF ipok THEN @ ELSE @ + 1,
                          !.derivBad = IF derivok THEN @ ELSE @ + 1,
                          !.recent = {}, !.needDeriv = need,
-                         !.iv = <<>>, !.prevMod = (e.ret = "Modified"),
+                         !.iv = <<>>, !.prevMod = (e.ret = "Modified"), !.gapped = FALSE,
                          !.lbBad = IF lbok THEN @ ELSE @ + 1,
                          !.mAtt = @ + nrejNow + (IF first THEN 0 ELSE 1),
                          !.mAcc = IF first THEN @ ELSE @ + 1,
@@ -134,6 +135,7 @@ TraceGap ==
     /\ LET e == Rec[l] IN
        A' = [A EXCEPT !.nOde = @ + e.n_ode, !.nOdeJ = @ + e.n_odej, !.nJac = @ + e.n_jac, !.nEv = @ + e.n_ev,
                       !.nCb = @ + e.n_cb,
+                      !.recent = {}, !.needDeriv = "", !.iv = <<>>, !.gapped = TRUE, !.everGapped = TRUE, !.modPending = "",
                       !.evalOut = @ + Out(e.rmin) + Out(e.rmax),
                       !.maxEval = IF e.rmax > @ THEN e.rmax ELSE @]
     /\ UNCHANGED C
@@ -157,7 +159,7 @@ TraceRet ==
        /\ Viol("C19", "protocol", C19_Protocol(C, A, R))
        \* Level B conformance (drift, never a violation): attempt structure and the counters the model predicts
        /\ LET lb == C.method \in {"RK4", "RK23", "DOPRI5", "DOP853"} /\ C.api = "low" /\ R.kind = "low"
-                      /\ R.status \in {"Success", "UserInterrupt"} /\ A.nCb < 1400 IN
+                      /\ R.status \in {"Success", "UserInterrupt"} /\ ~A.everGapped IN
           /\ (lb /\ A.lbBad > 0) => PrintT(<<"DRIFT", "attempt_structure", C.id, C.method>>)
           /\ (lb /\ A.lbBad = 0 /\ ~(R.naccpt = A.mAcc /\ R.nrejct = A.mRej /\ R.nstep = A.mTot))
                 => PrintT(<<"DRIFT", "counting_rule", C.id, C.method, <<R.naccpt, R.nrejct, R.nstep>>, <<A.mAcc, A.mRej, A.mTot>>>>)
